@@ -836,6 +836,24 @@ fn gen_c02(rng: &mut Rng, thorough: bool, g: &mut Groups) {
             for v in int_values(rng, s, fb, thorough, wide_n, stride16) {
                 g.push(conv_ev(s.name, f, big(v)));
             }
+            // rounding boundaries: amplitudes exactly half way between two adjacent floats of the target
+            // (even and odd mantissa below, so both tie directions) and their immediate neighbours, at every
+            // exponent -- where "correctly rounded" differs from truncation, round-half-up and double rounding
+            if s.bits > fb {
+                for t in fb..(s.bits - 1) {
+                    for lsb in 0..2i128 {
+                        let mid = (1i128 << t) + lsb * (1i128 << (t - fb + 1)) + (1i128 << (t - fb));
+                        for d in -1..=1i128 {
+                            for sign in [1i128, -1] {
+                                let a = sign * (mid + d);
+                                if a >= -(1i128 << (s.bits - 1)) && a < (1i128 << (s.bits - 1)) {
+                                    g.push(conv_ev(s.name, f, big(s.from_amp(a))));
+                                }
+                            }
+                        }
+                    }
+                }
+            }
         }
     }
     // float in [-1, 1) -> integer
